@@ -96,3 +96,34 @@ def run(ctx):
                          not a for case, got in zip(cases, res) for n, a in got["answers"] if dict(zip(case["nows"], case["verdicts"]))[n] == "either")
                      else "%d predicate calls fell on the instant now = expires (verdict 'either', not judged)" % either)
     ctx.notes.append("time grid of this run: base %s, unit %s s" % (out["base"], out["unit_s"]))
+
+    # The place where the client consults the predicate: upload_permitted() of the server objects a real
+    # StorageFarmBroker builds from announcements (first announcements and re-announcements with other
+    # certificates, entries that are not certificates at all), judged by TraceServerOrder.tla (clauses C33_*).
+    n, ev = (60, 14) if ctx.quick else (800, 24)
+    traces = ctx.impl("harness/serverorder_driver.py", ["--cfgmode", "direct", "--n", n, "--events", ev])
+    nperm = 0
+    for tr in traces:
+        for e in tr["events"]:
+            if e["ev"] == "Permits":
+                for sid, ans in e["res"].items():
+                    nperm += 1
+                    ctx.count(json.dumps([tr["consts"]["keys"], sid, e["now"], e["client"], len(tr["events"])]) if tr["consts"]["keys"] else None)
+    captured = []
+    ctx.report = lambda key, what, replay=None: captured.append((key, what, replay))
+    try:
+        ctx.trace("net/TraceServerOrder", traces, batch=800,
+                  key_of=lambda tr, l, clause: "trace:%s:%s" % (clause, tr["events"][l - 1]["ev"]),
+                  what_of=lambda tr, l, clause: "real StorageFarmBroker / server objects disagree with GridManager.tla at event %d: clause %s; keys %s, event %s"
+                  % (l, clause, tr["consts"]["keys"], json.dumps(tr["events"][l - 1])[:500]))
+    finally:
+        del ctx.report
+    other = set()
+    for key, wh, replay in captured:
+        if ":C33_" in key:
+            ctx.report(key, wh, replay)
+        else:
+            other.add(key)
+    if other:
+        ctx.notes.append("traces cut short by clauses of the sibling property C32 (reported by its own check): %s" % sorted(other))
+    ctx.notes.append("broker leg: %d scenarios, %d upload_permitted() answers of real server objects judged" % (len(traces), nperm))
